@@ -138,4 +138,24 @@ theorem variant_store_then_query_hits_canon (sp : Str → Option (Str × Str)) (
   unfold tokCanon
   rw [variant_same_string_same_key_canon sp puny hpc sa hu hv h]
 
+/-! ## non-vacuity -/
+
+private def gU : UrlG :=
+  { proto := .scheme "http".toList, ui := none, host := "www.a.com".toList, port := none,
+    path := "/x/".toList, query := none, fragment := none }
+private def gV : UrlG :=
+  { proto := .bare, ui := none, host := "A.com".toList, port := some "80".toList,
+    path := "/x".toList, query := some "utm_source=t".toList, fragment := none }
+
+/-- `http://www.a.com/x/` and `A.com:80/x?utm_source=t` are two strings of the class with the
+same normalized string: the hypotheses of `variant_*_norm` are satisfiable by distinct URLs -/
+example :
+    StemClass false gU none "http://www.a.com/x/".toList ∧
+    StemClass false gV (some 80) "A.com:80/x?utm_source=t".toList ∧
+    normalizeUrlString id id {} false "http://www.a.com/x/".toList =
+      normalizeUrlString id id {} false "A.com:80/x?utm_source=t".toList ∧
+    tokNorm (fun _ => none) id {} false false "A.com:80/x?utm_source=t".toList =
+      ["h:com".toList, "h:a".toList, "p:x".toList] := by
+  refine ⟨⟨⟨?_, ?_⟩, rfl, ?_⟩, ⟨⟨?_, ?_⟩, rfl, ?_⟩, ?_, ?_⟩ <;> decide +kernel
+
 end Ural.Props.C11
